@@ -19,14 +19,20 @@ From Verif Require Import Bytes Codec.
 Inductive vstat := VUnset | VEnabled | VSuspended.
 Definition kv := (bytes * bytes)%type.
 Record meta := { m_sys : list (option bytes); m_user : list kv }.
-Record rec := { r_cid : N; r_ctype : option bytes; r_class : option bytes;
+(* r_content: the object's bytes as the list of content ids of its parts (a plain put: one id);
+   r_mp: the ETag is a multipart-style one (complete / append), never equal to a plain content's *)
+Record rec := { r_content : list N; r_mp : bool; r_ctype : option bytes; r_class : option bytes;
                 r_sys : list (option bytes); r_user : list kv; r_tags : list kv }.
+(* a pending multipart upload (an object row with upload_status = pending): key, the options given
+   at creation (as the record the completed object will carry), the uploaded parts number -> content *)
+Record upload := { u_key : bytes; u_tmpl : rec; u_parts : list (N * N) }.
 Record version := { v_null : bool; v_rec : option rec }.      (* v_rec = None: delete marker *)
 Definition kstate := list version.                             (* newest (is_latest) first *)
-Record bstate := { b_vers : vstat; b_objs : bytes -> kstate }.
+Record bstate := { b_vers : vstat; b_objs : bytes -> kstate; b_ups : list (N * upload) }.
 Definition istate := bytes -> option bstate.
 
-Inductive err := NoSuchBucket | NoSuchKey | BucketAlreadyExists | BucketNotEmpty | PreconditionFailed | DeleteMarker.
+Inductive err := NoSuchBucket | NoSuchKey | BucketAlreadyExists | BucketNotEmpty | PreconditionFailed | DeleteMarker
+                 | InvalidPart.
 
 Definition fupd {A} (f : bytes -> A) (k : bytes) (v : A) : bytes -> A :=
   fun x => if bytes_eqb x k then v else f x.
@@ -44,21 +50,38 @@ Inductive call :=
 | CPut (b k : bytes) (cid : N) (ctype : option bytes) (o : popts)
 | CDel (b k : bytes) (vid : option bytes) (ifm : option (option N))
 | CDels (b : bytes) (ks : list bytes)
-| CVers (b : bytes) (v : vstat).
+| CVers (b : bytes) (v : vstat)
+(* write-through only: multipart (the upload is named by the label the history gives it), copy
+   (default directives), append (no write offset), tagging *)
+| CMpCreate (b k : bytes) (u : N) (ctype : option bytes) (o : popts)
+| CMpPart (b k : bytes) (u : N) (pn : N) (cid : N)
+| CMpComplete (b k : bytes) (u : N) (ifnone : bool) (ifm : option (option N))
+| CMpAbort (b k : bytes) (u : N)
+| CCopy (sb sk db dk : bytes)
+| CAppend (b k : bytes) (cid : N)
+| CPutTags (b k : bytes) (tags : list kv)
+| CDelTags (b k : bytes)
+| CPutR (b k : bytes) (r : rec).      (* internal: unconditional put of a given record (copy's write half) *)
 
 Definition none6 : list (option bytes) := [None; None; None; None; None; None].
 Definition fix6 (l : list (option bytes)) : list (option bytes) := firstn 6 (l ++ none6).
 
 Definition mk_rec (cid : N) (ctype : option bytes) (o : popts) : rec :=
-  {| r_cid := cid; r_ctype := ctype; r_class := o_class o;
+  {| r_content := [cid]; r_mp := false; r_ctype := ctype; r_class := o_class o;
      r_sys := match o_meta o with Some m => fix6 (m_sys m) | None => none6 end;
      r_user := match o_meta o with Some m => m_user m | None => [] end;
      r_tags := o_tags o |}.
 
 Definition is_obj (v : version) : bool := match v_rec v with Some _ => true | None => false end.
 Definition cur_exists (ks : kstate) : bool := match ks with v :: _ => is_obj v | [] => false end.
+Definition cur_rec (ks : kstate) : option rec := match ks with v :: _ => v_rec v | [] => None end.
+(* the plain content id an ETag stands for, if the ETag is a plain one *)
+Definition plain_cid (r : rec) : option N :=
+  if r_mp r then None else match r_content r with [c] => Some c | _ => None end.
 Definition cur_cid (ks : kstate) : option N :=
-  match ks with v :: _ => option_map r_cid (v_rec v) | [] => None end.
+  match cur_rec ks with Some r => plain_cid r | None => None end.
+Definition csize (c : N) : N := (2 + N.of_nat (length (show_N c)) + c)%N.
+Definition rsize (r : rec) : N := fold_right N.add 0%N (map csize (r_content r)).
 Definition etag_ok (ks : kstate) (ifm : option (option N)) : bool :=
   match ifm with
   | None => true
@@ -89,7 +112,7 @@ Definition del_k (st : vstat) (ks : kstate) (vid : option bytes) (ifm : option (
           match ifm with
           | Some (Some c) =>
               match find v_null ks with
-              | Some nv => if match option_map r_cid (v_rec nv) with Some c' => (c =? c')%N | None => false end
+              | Some nv => if match v_rec nv with Some r => match plain_cid r with Some c' => (c =? c')%N | None => false end | None => false end
                            then (remove_null ks, None) else (ks, Some PreconditionFailed)
               | None => (ks, None)
               end
@@ -106,20 +129,141 @@ Definition del_k (st : vstat) (ks : kstate) (vid : option bytes) (ifm : option (
            end
   end.
 
+(* sql/multipart.go CompleteMultipartUpload on one key: the same conditions and version handling as
+   PutObject, the record is the upload's template with the assembled content *)
+Fixpoint assoc_N (n : N) (l : list (N * N)) : option N :=
+  match l with [] => None | (i, c) :: t => if (i =? n)%N then Some c else assoc_N n t end.
+(* part numbers must be exactly 1..n (n = 0: an empty object) *)
+Definition assemble (ps : list (N * N)) : option (list N) :=
+  mapM (fun i => assoc_N (N.of_nat i) ps) (seq 1 (length ps)).
+Definition with_content (t : rec) (c : list N) (mp : bool) : rec :=
+  {| r_content := c; r_mp := mp; r_ctype := r_ctype t; r_class := r_class t; r_sys := r_sys t;
+     r_user := r_user t; r_tags := r_tags t |}.
+
+(* metadatapart/object_write.go + sql AppendObject on one key (no write offset) *)
+Definition append_k (st : vstat) (ks : kstate) (c : N) : kstate * option err :=
+  let fresh := {| r_content := [c]; r_mp := true; r_ctype := None; r_class := None; r_sys := none6; r_user := []; r_tags := [] |} in
+  match st with
+  | VEnabled =>
+      let r := match cur_rec ks with
+               | Some o => {| r_content := r_content o ++ [c]; r_mp := true; r_ctype := r_ctype o; r_class := None;
+                              r_sys := none6; r_user := []; r_tags := [] |}
+               | None => fresh end in
+      ({| v_null := false; v_rec := Some r |} :: ks, None)
+  | _ =>
+      match ks with
+      | v :: t => match v_rec v with
+                  | Some o => ({| v_null := v_null v; v_rec := Some (with_content o (r_content o ++ [c]) true) |} :: t, None)
+                  | None => ({| v_null := true; v_rec := Some fresh |} :: remove_null ks, None)
+                  end
+      | [] => ([{| v_null := true; v_rec := Some fresh |}], None)
+      end
+  end.
+
+(* tagging.go: the current version's tag set *)
+Definition tags_k (ks : kstate) (f : rec -> rec) : kstate * option err :=
+  match ks with
+  | [] => (ks, Some NoSuchKey)
+  | v :: t => match v_rec v with
+              | None => (ks, Some DeleteMarker)
+              | Some r => ({| v_null := v_null v; v_rec := Some (f r) |} :: t, None)
+              end
+  end.
+Definition set_tags (tg : list kv) (r : rec) : rec :=
+  {| r_content := r_content r; r_mp := r_mp r; r_ctype := r_ctype r; r_class := r_class r; r_sys := r_sys r;
+     r_user := r_user r; r_tags := tg |}.
+
+(* copy.go with default directives: content, ETag kind, content type, metadata (minus the website
+   redirect), user metadata and tags of the source; storage class of the request (none) *)
+Definition copy_rec (r : rec) : rec :=
+  {| r_content := r_content r; r_mp := r_mp r; r_ctype := r_ctype r; r_class := None;
+     r_sys := firstn 5 (r_sys r) ++ [None]; r_user := r_user r; r_tags := r_tags r |}.
+
+Fixpoint ups_find (u : N) (l : list (N * upload)) : option upload :=
+  match l with [] => None | (i, x) :: t => if (i =? u)%N then Some x else ups_find u t end.
+Definition ups_remove (u : N) (l : list (N * upload)) : list (N * upload) :=
+  filter (fun p => negb (fst p =? u)%N) l.
+
 Section Inner.
 Variable UK : list bytes.      (* key universe *)
 Variable UB : list bytes.      (* bucket universe *)
 
+(* DeleteBucket: no object row at all, pending uploads included *)
 Definition bucket_empty (bs : bstate) : bool :=
-  forallb (fun k => match b_objs bs k with [] => true | _ => false end) UK.
+  forallb (fun k => match b_objs bs k with [] => true | _ => false end) UK
+  && match b_ups bs with [] => true | _ => false end.
 
 Definition set_key (s : istate) (b : bytes) (bs : bstate) (k : bytes) (ks : kstate) : istate :=
-  fupd s b (Some {| b_vers := b_vers bs; b_objs := fupd (b_objs bs) k ks |}).
+  fupd s b (Some {| b_vers := b_vers bs; b_objs := fupd (b_objs bs) k ks; b_ups := b_ups bs |}).
 
 Fixpoint dels_k (st : vstat) (objs : bytes -> kstate) (ks : list bytes) : bytes -> kstate :=
   match ks with
   | [] => objs
   | k :: t => dels_k st (fupd objs k (fst (del_k st (objs k) None None))) t
+  end.
+
+(* the source half of CopyObject *)
+Definition copy_src (s : istate) (sb sk : bytes) : err + rec :=
+  match s sb with
+  | None => inl NoSuchBucket
+  | Some bs => match b_objs bs sk with
+               | [] => inl NoSuchKey
+               | v :: _ => match v_rec v with Some r => inr (copy_rec r) | None => inl DeleteMarker end
+               end
+  end.
+Definition put_rec (s : istate) (b k : bytes) (r : rec) : istate * option err :=
+  match s b with
+  | None => (s, Some NoSuchBucket)
+  | Some bs => match put_k (b_vers bs) (b_objs bs k) r false None with
+               | (ks', None) => (set_key s b bs k ks', None)
+               | (_, Some e) => (s, Some e)
+               end
+  end.
+
+(* the calls that work on one key of one bucket plus the bucket's pending uploads *)
+Definition keyop (c : call) : option (bytes * bytes) :=
+  match c with
+  | CMpCreate b k _ _ _ | CMpPart b k _ _ _ | CMpComplete b k _ _ _ | CMpAbort b k _
+  | CAppend b k _ | CPutTags b k _ | CDelTags b k => Some (b, k)
+  | _ => None
+  end.
+Definition kstep (c : call) (st : vstat) (ks : kstate) (ups : list (N * upload))
+  : kstate * list (N * upload) * option err :=
+  match c with
+  | CMpCreate _ k u ctype o =>
+      (ks, (u, {| u_key := k; u_tmpl := with_content (mk_rec 0 ctype o) [] true; u_parts := [] |}) :: ups_remove u ups, None)
+  | CMpPart _ k u pn cid =>
+      match ups_find u ups with
+      | Some x => if bytes_eqb (u_key x) k
+                  then (ks, (u, {| u_key := k; u_tmpl := u_tmpl x;
+                                   u_parts := (pn, cid) :: filter (fun p => negb (fst p =? pn)%N) (u_parts x) |}) :: ups_remove u ups, None)
+                  else (ks, ups, Some NoSuchKey)
+      | None => (ks, ups, Some NoSuchKey)
+      end
+  | CMpComplete _ k u ifnone ifm =>
+      match ups_find u ups with
+      | Some x =>
+          if bytes_eqb (u_key x) k then
+            match assemble (u_parts x) with
+            | None => (ks, ups, Some InvalidPart)
+            | Some content =>
+                match put_k st ks (with_content (u_tmpl x) content true) ifnone ifm with
+                | (ks', None) => (ks', ups_remove u ups, None)
+                | (_, Some e) => (ks, ups, Some e)
+                end
+            end
+          else (ks, ups, Some NoSuchKey)
+      | None => (ks, ups, Some NoSuchKey)
+      end
+  | CMpAbort _ k u =>
+      match ups_find u ups with
+      | Some x => if bytes_eqb (u_key x) k then (ks, ups_remove u ups, None) else (ks, ups, Some NoSuchKey)
+      | None => (ks, ups, Some NoSuchKey)
+      end
+  | CAppend _ _ cid => let '(ks', e) := append_k st ks cid in (ks', ups, e)
+  | CPutTags _ _ tg => let '(ks', e) := tags_k ks (set_tags tg) in (ks', ups, e)
+  | CDelTags _ _ => let '(ks', e) := tags_k ks (set_tags []) in (ks', ups, e)
+  | _ => (ks, ups, None)
   end.
 
 (* the inner storage: one call, atomically (every MetadataPartStorage method is one transaction) *)
@@ -128,7 +272,7 @@ Definition apply_call (s : istate) (c : call) : istate * option err :=
   | CCreate b =>
       match s b with
       | Some _ => (s, Some BucketAlreadyExists)
-      | None => (fupd s b (Some {| b_vers := VUnset; b_objs := fun _ => [] |}), None)
+      | None => (fupd s b (Some {| b_vers := VUnset; b_objs := fun _ => []; b_ups := [] |}), None)
       end
   | CDeleteB b =>
       match s b with
@@ -156,28 +300,49 @@ Definition apply_call (s : istate) (c : call) : istate * option err :=
   | CDels b ks =>
       match s b with
       | None => (s, Some NoSuchBucket)
-      | Some bs => (fupd s b (Some {| b_vers := b_vers bs; b_objs := dels_k (b_vers bs) (b_objs bs) ks |}), None)
+      | Some bs => (fupd s b (Some {| b_vers := b_vers bs; b_objs := dels_k (b_vers bs) (b_objs bs) ks; b_ups := b_ups bs |}), None)
       end
   | CVers b v =>
       match s b with
       | None => (s, Some NoSuchBucket)
-      | Some bs => (fupd s b (Some {| b_vers := v; b_objs := b_objs bs |}), None)
+      | Some bs => (fupd s b (Some {| b_vers := v; b_objs := b_objs bs; b_ups := b_ups bs |}), None)
+      end
+  | CCopy sb sk db dk =>
+      match copy_src s sb sk with
+      | inl e => (s, Some e)
+      | inr r => put_rec s db dk r
+      end
+  | CPutR b k r => put_rec s b k r
+  | _ =>
+      match keyop c with
+      | None => (s, None)
+      | Some (b, k) =>
+          match s b with
+          | None => (s, Some NoSuchBucket)
+          | Some bs =>
+              match kstep c (b_vers bs) (b_objs bs k) (b_ups bs) with
+              | (ks', ups', None) =>
+                  (fupd s b (Some {| b_vers := b_vers bs; b_objs := fupd (b_objs bs) k ks'; b_ups := ups' |}), None)
+              | (_, _, Some e) => (s, Some e)
+              end
+          end
       end
   end.
 
 Inductive rd :=
-| RGet (b k : bytes) | RList (b : bytes) | RListBuckets | RHeadBucket (b : bytes) | RGetVers (b : bytes).
+| RGet (b k : bytes) | RList (b : bytes) | RListBuckets | RHeadBucket (b : bytes) | RGetVers (b : bytes)
+| RTags (b k : bytes).
 
 Inductive res :=
 | ResCall (e : option err)                 (* a write: OK or the error *)
 | ResObj (r : rec) | ResErr (e : err)
-| ResKeys (l : list (bytes * N)) | ResBuckets (l : list bytes) | ResVers (v : vstat)
+| ResKeys (l : list (bytes * N)) | ResBuckets (l : list bytes) | ResVers (v : vstat) | ResTags (l : list kv)
 | ResBlocked                               (* the operation is waiting for the outbox *)
 | ResWorker (r : option (option err))      (* None: nothing to claim; Some r: replay result *)
 | ResNone.                                 (* join with nothing in flight / busy *)
 
 Definition list_keys (bs : bstate) : list (bytes * N) :=
-  flat_map (fun k => match cur_cid (b_objs bs k) with Some c => [(k, c)] | None => [] end) UK.
+  flat_map (fun k => match cur_rec (b_objs bs k) with Some r => [(k, rsize r)] | None => [] end) UK.
 
 Definition read_inner (s : istate) (r : rd) : res :=
   match r with
@@ -193,6 +358,14 @@ Definition read_inner (s : istate) (r : rd) : res :=
   | RListBuckets => ResBuckets (filter (fun b => match s b with Some _ => true | None => false end) UB)
   | RHeadBucket b => match s b with None => ResErr NoSuchBucket | Some _ => ResCall None end
   | RGetVers b => match s b with None => ResErr NoSuchBucket | Some bs => ResVers (b_vers bs) end
+  | RTags b k =>
+      match s b with
+      | None => ResErr NoSuchBucket
+      | Some bs => match b_objs bs k with
+                   | [] => ResErr NoSuchKey
+                   | v :: _ => match v_rec v with Some r => ResTags (r_tags r) | None => ResErr DeleteMarker end
+                   end
+      end
   end.
 
 (* ---------------------------------------------------------------- outbox *)
@@ -236,9 +409,11 @@ Definition replay_call (p : payload) : call :=
   end.
 
 (* the four entry classes a waiting operation can name *)
-Inductive wclass := WKey (b k : bytes) | WBucket (b : bytes) | WGlobalB (b : bytes) | WGlobalAll.
-Definition conflict (w : wclass) (p : payload) : bool :=
+Inductive wclass := WKey (b k : bytes) | WBucket (b : bytes) | WGlobalB (b : bytes) | WGlobalAll
+                  | WTwo (w1 w2 : wclass).     (* CopyObject: the source key's class, then the destination's *)
+Fixpoint conflict (w : wclass) (p : payload) : bool :=
   match w with
+  | WTwo a b => conflict a p || conflict b p
   | WKey b k => bytes_eqb (pl_bucket p) b && (is_empty (pl_key p) || bytes_eqb (pl_key p) k)
   | WBucket b => bytes_eqb (pl_bucket p) b
   | WGlobalB b => bytes_eqb (pl_bucket p) b && is_empty (pl_key p)
@@ -249,6 +424,7 @@ Definition rd_class (r : rd) : wclass :=
   match r with
   | RGet b k => WKey b k | RList b => WBucket b | RListBuckets => WGlobalAll
   | RHeadBucket b => WGlobalB b | RGetVers b => WGlobalB b
+  | RTags b k => WKey b k
   end.
 
 (* what is still to be done by an operation that had to wait *)
@@ -279,6 +455,9 @@ Definition route (s : istate) (c : call) : option wclass * list payload :=
       let ver := match vers_of s b with Some VEnabled | Some VSuspended => true | _ => false end in
       if ver then (Some (WBucket b), []) else (None, map (fun k => PDel b k None) ks)
   | CVers b _ => (Some (WBucket b), [])
+  | CMpCreate b k _ _ _ | CMpPart b k _ _ _ | CMpComplete b k _ _ _ | CMpAbort b k _
+  | CAppend b k _ | CPutTags b k _ | CDelTags b k | CPutR b k _ => (Some (WKey b k), [])
+  | CCopy sb sk db dk => (Some (WTwo (WKey sb sk) (WKey db dk)), [])
   end.
 
 Fixpoint enqueue (q : list entry) (n : N) (ps : list payload) : list entry * N :=
@@ -364,6 +543,9 @@ End Inner.
      cb/<b>  db/<b>  put/<b>/<k>/<cid>/<ctype>/<class>/<meta>/<tags>/<ifnone>/<ifmatch>
      del/<b>/<k>/<vid>/<ifmatch>  dels/<b>/<keys>  ver/<b>/E|S
      get/<b>/<k>  ls/<b>  lb  hb/<b>  gv/<b>  W  J
+     cmu/<b>/<k>/<label>/<ctype>/<class>/<meta>/<tags>  up/<b>/<k>/<label>/<partno>/<cid>
+     cpl/<b>/<k>/<label>/<ifnone>/<ifmatch>  abt/<b>/<k>/<label>  cp/<sb>/<sk>/<db>/<dk>  app/<b>/<k>/<cid>
+     ptag/<b>/<k>/<tags>  dtag/<b>/<k>  gtag/<b>/<k>
    optional bytes: N | S<hex>; kv lists: _ | k=v,k=v (hex); meta: N | M:<sys6>:<user> with sys6 six
    optional tokens separated by ','; ifmatch: N | * | <cid>.
    output: one token per op, then the sweep of the inner storage and the number of pending entries *)
@@ -424,16 +606,54 @@ Definition parse_op (t : bytes) : option op :=
       match untok_bytes b with
       | Some b =>
           if bytes_eqb c B"get" then option_map (fun k => ORead (RGet b k)) (untok_bytes x)
+          else if bytes_eqb c B"gtag" then option_map (fun k => ORead (RTags b k)) (untok_bytes x)
+          else if bytes_eqb c B"dtag" then option_map (fun k => OCall (CDelTags b k)) (untok_bytes x)
           else if bytes_eqb c B"dels" then option_map (fun ks => OCall (CDels b ks)) (untok_list x)
           else if bytes_eqb c B"ver" then option_map (fun v => OCall (CVers b v)) (untok_vstat x)
           else None
       | None => None
+      end
+  | [c; b; k; x] =>
+      match untok_bytes b, untok_bytes k with
+      | Some b, Some k =>
+          if bytes_eqb c B"abt" then option_map (fun u => OCall (CMpAbort b k u)) (parse_N x)
+          else if bytes_eqb c B"app" then option_map (fun cid => OCall (CAppend b k cid)) (parse_N x)
+          else if bytes_eqb c B"ptag" then option_map (fun tg => OCall (CPutTags b k tg)) (untok_kvs x)
+          else None
+      | _, _ => None
       end
   | [c; b; k; vid; ifm] =>
       if bytes_eqb c B"del" then
         match untok_bytes b, untok_bytes k, untok_opt vid, untok_ifm ifm with
         | Some b, Some k, Some vid, Some ifm => Some (OCall (CDel b k vid ifm))
         | _, _, _, _ => None
+        end
+      else if bytes_eqb c B"cp" then
+        match untok_bytes b, untok_bytes k, untok_bytes vid, untok_bytes ifm with
+        | Some sb, Some sk, Some db, Some dk => Some (OCall (CCopy sb sk db dk))
+        | _, _, _, _ => None
+        end
+      else None
+  | [c; b; k; u; x; y] =>
+      match untok_bytes b, untok_bytes k, parse_N u with
+      | Some b, Some k, Some u =>
+          if bytes_eqb c B"up" then
+            match parse_N x, parse_N y with Some pn, Some cid => Some (OCall (CMpPart b k u pn cid)) | _, _ => None end
+          else if bytes_eqb c B"cpl" then
+            match parse_bool x, untok_ifm y with Some ifn, Some ifm => Some (OCall (CMpComplete b k u ifn ifm)) | _, _ => None end
+          else None
+      | _, _, _ => None
+      end
+  | [c; b; k; u; ct; cl; m; tg] =>
+      if bytes_eqb c B"cmu" then
+        match untok_bytes b, untok_bytes k, parse_N u, untok_opt ct, untok_opt cl with
+        | Some b, Some k, Some u, Some ct, Some cl =>
+            match untok_meta m, untok_kvs tg with
+            | Some m, Some tg =>
+                Some (OCall (CMpCreate b k u ct {| o_tags := tg; o_meta := m; o_class := cl; o_ifnone := false; o_ifmatch := None |}))
+            | _, _ => None
+            end
+        | _, _, _, _, _ => None
         end
       else None
   | [c; b; k; cid; ct; cl; m; tg; ifn; ifm] =>
@@ -457,6 +677,7 @@ Definition show_err (e : err) : bytes :=
   | NoSuchBucket => B"NoSuchBucket" | NoSuchKey => B"NoSuchKey"
   | BucketAlreadyExists => B"BucketAlreadyExists" | BucketNotEmpty => B"BucketNotEmpty"
   | PreconditionFailed => B"PreconditionFailed" | DeleteMarker => B"DeleteMarker"
+  | InvalidPart => B"InvalidPart"
   end.
 Definition show_oerr (e : option err) : bytes :=
   match e with None => B"OK" | Some e => B"E:" ++ show_err e end.
@@ -465,7 +686,7 @@ Definition show_vstat (v : vstat) : bytes :=
 Definition show_class (c : option bytes) : bytes :=
   match c with None => tok_bytes B"STANDARD" | Some [] => tok_bytes B"STANDARD" | Some c => tok_bytes c end.
 Definition show_rec (r : rec) : bytes :=
-  B"O:" ++ show_N (r_cid r) ++ B":" ++ tok_opt (r_ctype r) ++ B":" ++ show_class (r_class r) ++ B":"
+  B"O:" ++ join B"+" (map show_N (r_content r)) ++ B":" ++ tok_opt (r_ctype r) ++ B":" ++ show_class (r_class r) ++ B":"
   ++ tok_sys (r_sys r) ++ B":" ++ tok_kvs (r_user r) ++ B":" ++ tok_kvs (r_tags r).
 Definition show_keys (l : list (bytes * N)) : bytes :=
   match l with
@@ -480,6 +701,7 @@ Definition show_res (r : res) : bytes :=
   | ResKeys l => show_keys l
   | ResBuckets l => B"B:" ++ tok_list l
   | ResVers v => B"V:" ++ show_vstat v
+  | ResTags l => B"T:" ++ tok_kvs l
   | ResBlocked => B"BLK"
   | ResWorker None => B"W:IDLE"
   | ResWorker (Some e) => B"W:" ++ show_oerr e
@@ -496,7 +718,7 @@ Definition show_key_state (k : bytes) (ks : kstate) : bytes :=
    | [] => B"-" end)
   ++ B"~" ++ show_nat (length ks) ++ B"~" ++ show_nat (count_dm ks).
 Definition sweep_bucket (UK : list bytes) (b : bytes) (bs : bstate) : bytes :=
-  B"S|" ++ tok_bytes b ++ B"|" ++ show_vstat (b_vers bs) ++
+  B"S|" ++ tok_bytes b ++ B"|" ++ show_vstat (b_vers bs) ++ B"|u" ++ show_nat (length (b_ups bs)) ++
   concat (map (fun k => match b_objs bs k with [] => [] | ks => B"|" ++ show_key_state k ks end) UK).
 Definition sweep (UK UB : list bytes) (s : istate) : list bytes :=
   flat_map (fun b => match s b with Some bs => [sweep_bucket UK b bs] | None => [] end) UB.
@@ -511,6 +733,19 @@ Definition run_line (l : bytes) : bytes :=
       unwords (map show_res rs ++ [B"#"] ++ sweep UK UB (inner s) ++ [B"Q" ++ show_nat (length (queue s))])
   | _ => parse_error
   end.
+
+(* the entry class an operation waits for before it touches the inner storage, as coded in
+   outbox.go (for calls that are routed to the queue the class is irrelevant) *)
+Definition call_class (c : call) : wclass :=
+  match c with
+  | CPut b k _ _ _ | CDel b k _ _
+  | CMpCreate b k _ _ _ | CMpPart b k _ _ _ | CMpComplete b k _ _ _ | CMpAbort b k _
+  | CAppend b k _ | CPutTags b k _ | CDelTags b k | CPutR b k _ => WKey b k
+  | CCopy sb sk db dk => WTwo (WKey sb sk) (WKey db dk)
+  | CDels b _ | CVers b _ | CCreate b | CDeleteB b => WBucket b
+  end.
+Definition cont_class (k : cont) : wclass :=
+  match k with KCall c => call_class c | KRead r => rd_class r end.
 
 (* ---------------------------------------------------------------- specification vocabulary
    (used by the statements in Properties/C21.v; still no proofs) *)
